@@ -381,10 +381,30 @@ def _registry(E):
         "multiple.compute_rotated(pga)": (multiple.compute_rotated, (asig, bsig), {"parameter": "pga", "points": 5}),
         "multiple.compute_rotated(arias)": (multiple.compute_rotated, (asig, bsig), {"parameter": "arias_intensity", "points": 4, "angle_off_ns": 20.0}),
         "multiple.compute_rotated(func)": (multiple.compute_rotated, (asig, bsig), {"func": im.calc_cav, "points": 3}),
+        "time_step.interp_to_approx_dt(same dt)": (f_tstep.interp_to_approx_dt, (asig,), {"target_dt": dt, "even": False}),
+        "time_step.interp_to_approx_dt(same dt, even)": (f_tstep.interp_to_approx_dt, (E["asig_even"],), {"target_dt": dt}),
+        "time_step.resample_to_approx_dt(same dt)": (f_tstep.resample_to_approx_dt, (E["asig_even"],), {"target_dt": dt}),
+        "time_step.interp_array_to_approx_dt(same dt)": (f_tstep.interp_array_to_approx_dt, (a, dt), {"target_dt": dt, "even": False}),
+        # object methods that take caller arrays (settings): the arrays must come back unchanged
+        "AccSignal.generate_response_spectrum(periods)": (lambda arr: _on_fresh(E, lambda o: (o.generate_response_spectrum(response_times=arr), np.array(o.s_a))[1]), (E["T_desc"],), {}),
+        "AccSignal.gen_response_spectrum(periods, ratio)": (lambda arr: _on_fresh(E, lambda o: (o.gen_response_spectrum(response_times=arr, min_dt_ratio=2), np.array(o.s_d))[1]), (E["T_mixed"],), {}),
+        "AccSignal.response_series(periods)": (lambda arr: _on_fresh(E, lambda o: o.response_series(response_times=arr, xi=0.02)), (E["T_desc"],), {}),
+        "AccSignal.response_times=": (lambda arr: _on_fresh(E, lambda o: (setattr(o, "response_times", arr), np.array(o.s_a))[1]), (E["T_mixed"],), {}),
+        "Signal.smooth_fa_freqs=": (lambda arr: _on_fresh(E, lambda o: (setattr(o, "smooth_fa_freqs", arr), np.array(o.smooth_fa_spectrum))[1]), (E["F_desc"],), {}),
+        "Signal.gen_smooth_fa_spectrum(freqs)": (lambda arr: _on_fresh(E, lambda o: (o.gen_smooth_fa_spectrum(smooth_fa_freqs=arr), np.array(o.smooth_fa_spectrum))[1]), (E["F_desc"],), {}),
+        "Signal.butter_pass(ndarray cut-offs)": (lambda arr: _on_fresh(E, lambda o: (o.butter_pass(arr, filter_order=2), np.array(o.values))[1]), (E["cut"],), {}),
+        "Signal.add_series": (lambda arr: _on_fresh(E, lambda o: (o.add_series(arr), np.array(o.values))[1]), (E["af"],), {}),
+        "Signal.add_signal": (lambda other: _on_fresh(E, lambda o: (o.add_signal(other), np.array(o.values))[1]), (bsig,), {}),
+        "Signal.reset_values": (lambda arr: _on_fresh(E, lambda o: (o.reset_values(arr), np.array(o.values))[1]), (E["af"],), {}),
         "loader.save_signal": (loader.save_signal, (_tmpfile(), asig), {}),
         "loader.save_values_and_dt": (loader.save_values_and_dt, (_tmpfile(), a, dt, "lab"), {}),
     }
     return R
+
+
+def _on_fresh(E, f):
+    """Run a method of a freshly constructed AccSignal (so that calling twice is repeatable and the object itself is not an argument)."""
+    return f(E["fresh_asig"]())
 
 
 def _same(x, y):
@@ -454,7 +474,11 @@ def _pure_one(case, ctx, how):
          "thr": float(0.3 * np.max(np.abs(af))) if np.any(af) else 0.1, "aref": float(0.65 * max(np.max(np.abs(af)), 1e-9)),
          "bexp": np.array([0.2, 0.34, 0.5]), "xf": np.arange(6, dtype=float), "ftab": rs.standard_normal((6, 3)),
          "xq": np.array([-0.5, 0.0, 1.25, 4.0, 5.5]), "xq_in": np.array([0.0, 1.25, 4.0, 5.0]), "ycol": rs.standard_normal(6),
-         "stock": stockwell.transform(af)}
+         "stock": stockwell.transform(af),
+         "asig_even": eqsig.AccSignal(np.array(af[:2 * (n // 2)]), dt),
+         "fresh_asig": (lambda: eqsig.AccSignal(np.array(af), dt)),
+         "T_desc": np.array([40 * dt, 12 * dt, 3 * dt]), "T_mixed": np.array([12 * dt, 40 * dt, 3 * dt, 25 * dt]),
+         "F_desc": np.array([20.0, 5.0, 1.0, 0.3]), "cut": np.array([0.05 / dt * 0.2, 0.05 / dt * 2.0])}
     reg = _registry(E)
     env_snap = {k: _snap(v) for k, v in E.items() if isinstance(v, (np.ndarray, list, eqsig.Signal))}
     rejected = 0
@@ -479,6 +503,15 @@ def _pure_one(case, ctx, how):
             continue
         if name.startswith("loader."):
             continue
+        # a returned signal owns its data: it is not one of the arguments and shares no memory with them
+        for r in (res[0] if isinstance(res[0], (tuple, list)) else [res[0]]):
+            if isinstance(r, eqsig.Signal):
+                for x in list(args) + list(kwargs.values()):
+                    if x is r:
+                        ctx.fail("%s returned its own argument object instead of a new signal (%s input, n=%d)" % (name, how, n))
+                    xv = x.values if isinstance(x, eqsig.Signal) else x
+                    if isinstance(xv, np.ndarray) and isinstance(r.values, np.ndarray) and np.shares_memory(xv, r.values):
+                        ctx.fail("%s returned a signal whose values share memory with an argument (%s input, n=%d)" % (name, how, n))
         if not _same(res[0], res[1]):
             ctx.fail("%s returned a different result when called again (%s input, n=%d)" % (name, how, n))
     for k, v in E.items():
